@@ -65,7 +65,7 @@ type c16Client struct {
 }
 
 func c16IsPkgKey(key string) bool {
-	return strings.HasPrefix(key, "Composition/") || strings.HasPrefix(key, "XRD/")
+	return strings.HasPrefix(key, "Composition/") || strings.HasPrefix(key, "XRD/") || strings.HasPrefix(key, "CRD/")
 }
 
 func (c *c16Client) Get(ctx context.Context, key client.ObjectKey, obj client.Object, opts ...client.GetOption) error {
@@ -139,6 +139,16 @@ func c16Outcome(s string) Outcome {
 func (c *c16Client) plan(ci CallInfo) Outcome {
 	s := c.step
 	key := c16KeyOf(ci.GK, ci.Name)
+	if ci.GK == "Secret" && ci.Verb == "get" {
+		// getWebhookTLSCert
+		c.calls = append(c.calls, c16Call{Verb: ci.Verb, Key: key, Idx: 0, Phase: "tls"})
+		for _, f := range s.Faults {
+			if f.Phase == "tls" {
+				return c16Outcome(f.Out)
+			}
+		}
+		return OK
+	}
 	if !c16IsPkgKey(key) || ci.Sub != "" {
 		c.calls = append(c.calls, c16Call{Verb: ci.Verb, Key: key, Idx: -1})
 		return OK
@@ -214,6 +224,9 @@ func c16TypedRefs(refs []c16XRef) []xpv1.TypedReference {
 			if kind == "XRD" {
 				gvk = xv1.CompositeResourceDefinitionGroupVersionKind
 			}
+			if kind == "CRD" {
+				gvk = schema.GroupVersionKind{Group: "apiextensions.k8s.io", Version: "v1", Kind: "CustomResourceDefinition"}
+			}
 			tr.APIVersion, tr.Kind = gvk.ToAPIVersionAndKind()
 		}
 		out = append(out, tr)
@@ -254,6 +267,8 @@ func c16StatusRefs(st *Store, uid int) []c16XRef {
 			out = append(out, c16XRef{Key: "?/" + name, Kinded: false})
 		case "CompositeResourceDefinition":
 			out = append(out, c16XRef{Key: "XRD/" + name, Kinded: true})
+		case "CustomResourceDefinition":
+			out = append(out, c16XRef{Key: "CRD/" + name, Kinded: true})
 		default:
 			out = append(out, c16XRef{Key: kind + "/" + name, Kinded: true})
 		}
@@ -297,7 +312,7 @@ func c16PackageStream(objs []c16Des) []byte {
 	b.Write(mb)
 	for _, d := range objs {
 		b.WriteString("\n---\n")
-		ob, _ := json.Marshal(c16Build(d.Key, d.Body))
+		ob, _ := json.Marshal(c16BuildConv(d.Key, d.Body, d.Conv))
 		b.Write(ob)
 	}
 	b.WriteString("\n")
@@ -404,9 +419,10 @@ func c16RunStep(st *Store, s *c16Step) (c16StepObs, []c16Call) {
 		})
 	default:
 		parent := c16ParentObj(s.Parent)
+		c16SetTLS(st, s.Parent.TLS)
 		var objs []runtime.Object
 		for _, d := range s.Objs {
-			objs = append(objs, c16Build(d.Key, d.Body))
+			objs = append(objs, c16BuildConv(d.Key, d.Body, d.Conv))
 		}
 		var refs []xpv1.TypedReference
 		st.Plan = cl.plan
@@ -415,7 +431,13 @@ func c16RunStep(st *Store, s *c16Step) (c16StepObs, []c16Call) {
 			for _, r := range refs {
 				obs.Refs = append(obs.Refs, c16RefObs{Name: r.Name, Kinded: r.Kind != ""})
 			}
-			sort.Slice(obs.Refs, func(i, j int) bool { return obs.Refs[i].Name < obs.Refs[j].Name })
+			sort.Slice(obs.Refs, func(i, j int) bool {
+				a, b := obs.Refs[i], obs.Refs[j]
+				if a.Name != b.Name {
+					return a.Name < b.Name
+				}
+				return !a.Kinded && b.Kinded
+			})
 		}
 	}
 	st.Plan = nil
@@ -666,6 +688,9 @@ func c16Monitor(s *c16Step, before []c16Obj, refsBefore []c16XRef, so c16StepObs
 				}
 			}
 		}
+		if s.Control && d.Conv && s.Parent.TLS != "present" {
+			blocked = d.Key + " needs a CA bundle the parent does not have"
+		}
 		submits := cur != nil || s.Control
 		if submits && c16InStrs(s.RejKeys, d.Key) {
 			blocked = d.Key + " is rejected by the API server (key)"
@@ -677,6 +702,9 @@ func c16Monitor(s *c16Step, before []c16Obj, refsBefore []c16XRef, so c16StepObs
 		if submits && c16InInts(s.RejBodies, body) {
 			blocked = fmt.Sprintf("%s is rejected by the API server (body %d)", d.Key, body)
 		}
+	}
+	if s.Op == "establish" && s.Control && (s.Parent.TLS == "missing" || s.Parent.TLS == "empty") {
+		blocked = "the webhook TLS secret is " + s.Parent.TLS
 	}
 	if blocked != "" {
 		if so.Result == "ok" {
@@ -796,6 +824,8 @@ func c16GenParent(r *Rng, uid int) c16Parent {
 	case 1: // label does not match
 		p.Owners = append(p.Owners, c16PRef{Name: pkgName, UID: pkgUID, Ctrl: "true", Block: "true"})
 		p.Label = ""
+	case 3: // two owner references carry the package's name: the first one counts
+		p.Owners = append(p.Owners, c16PRef{Name: pkgName, UID: pkgUID, Ctrl: "true", Block: "true"}, c16PRef{Name: pkgName, UID: 95, Ctrl: "nil", Block: "nil"})
 	case 2: // an unrelated owner first
 		p.Owners = append(p.Owners, c16PRef{Name: "someone", UID: 95, Ctrl: "nil", Block: "nil"}, c16PRef{Name: pkgName, UID: pkgUID, Ctrl: "true", Block: "true"})
 	default:
